@@ -248,6 +248,13 @@ func TestC27(t *testing.T) {
 				return
 			}
 		}
+		if m.Chunked && m.Proto == "HTTP/1.0" {
+			// a message that labels itself HTTP/1.0 has no chunked coding: a recipient that goes by
+			// the status line reads the raw chunk stream as a body without end
+			if !rec.Fail(rt, "chunked-in-http10-message", wit, "response labelled %s uses Transfer-Encoding: chunked (client spoke %s)", m.Proto, cver) {
+				return
+			}
+		}
 		if !bytes.Equal(m.Body, wantBody) && !(len(m.Body) == 0 && len(wantBody) == 0) {
 			if !rec.Fail(rt, "body-changed:"+c27Key(status, framing, method, cver), wit, "body differs: got %d bytes, want %d", len(m.Body), len(wantBody)) {
 				return
